@@ -303,7 +303,9 @@ def hdl21_naming_encoder(obj: Any) -> Any:
     # often invoking methods not supported on several Hdl21 types.
     # Convert to (shallow) dictionaries instead.
     if dataclasses.is_dataclass(obj):
-        return {f.name: getattr(obj, f.name) for f in dataclasses.fields(obj)}
+        # (Negative zero equals zero, and is named like it.)
+        zero = lambda v: 0.0 if isinstance(v, float) and v == 0 else v
+        return {f.name: zero(getattr(obj, f.name)) for f in dataclasses.fields(obj)}
 
     # Not an Hdl21 type. Hand off to pydantic.
     return pydantic_json_encoder(obj)
